@@ -189,7 +189,7 @@ mut("c10-nullpad-other-defect", ["C10"], "crysp/padding.py",
 # every repaired defect, reverted (reverse diff of the fix: commit)
 REVERTS = [("50e5c02", ["C10"]), ("e8e8bb0", ["C10", "C04"]), ("bfdcdf1", ["C10"]), ("1ad0a5d", ["C14"]),
            ("0a5e961", ["C14", "C09"]), ("305fa72", ["C10"]), ("a2b4df7", ["C10"]), ("8f09bef", ["C06"]),
-           ("76c3fd2", ["C08"]), ("79a2167", ["C08"]), ("1f9e02c", ["C08"]), ("bdeb017", ["C20"])]
+           ("76c3fd2", ["C08"]), ("79a2167", ["C08"]), ("1f9e02c", ["C08"]), ("bdeb017", ["C20"]), ("217d264", ["C08"])]
 
 os.makedirs(OUT, exist_ok=True)
 cat = []
